@@ -52,7 +52,7 @@ struct Problem{
   std::vector<double> omega;   // [irho*nsun+k] base levels of H0
   double h0slope;
 
-  void build(uint64_t seed,unsigned nx_,unsigned nsun_,unsigned nrhos_,unsigned nscalars_){
+  void build(uint64_t seed,unsigned nx_,unsigned nsun_,unsigned nrhos_,unsigned nscalars_,bool all_const=false){
     nx=nx_; nsun=nsun_; nrhos=nrhos_; nscalars=nscalars_;
     Rng r(seed);
     cells.resize(nx*nrhos); scells.resize(nx*nscalars); omega.resize(nrhos*nsun);
@@ -67,6 +67,8 @@ struct Problem{
     for(size_t c=0;c<scells.size();c++){ scells[c].gam=gen_fn(r,0.8,true); scells[c].q=gen_fn(r,1.0,false); }
     for(size_t k=0;k<omega.size();k++) omega[k]=r.uniform(-3,3);
     h0slope=r.uniform(0.1,1.0);
+    // time-independent terms only (plans at clocks of 1e13 and more, where c*t and cos(w t) mean nothing): the same draws, kinds forced afterwards
+    if(all_const){ for(size_t c=0;c<cells.size();c++){ cells[c].f.kind=0; cells[c].g.kind=0; cells[c].s.kind=0; } for(size_t c=0;c<scells.size();c++){ scells[c].gam.kind=0; scells[c].q.kind=0; } }
   }
   const Cell& cell(unsigned ix,unsigned irho) const{ return cells[ix*nrhos+irho]; }
   static Mat diagm(unsigned d,const double* v,double s){ Mat m(d); for(unsigned k=0;k<d;k++) m.m[k][k]=v[k]*s; return m; }
